@@ -136,15 +136,30 @@ func c19PolicyProbeHosts() []string {
 	return append(out, " localhost", "localhost ", "example.test", "conjure.example.org", "LOCALHOST", "DB.Corp", "123.corp", "host_a.b-c")
 }
 
+// c19NameProbes: coverts given by host name, probed before and after every step like the literals.
+// They resolve offline (hosts file; the resolver installed by c19NoDNS never reaches a name server);
+// a name that does not resolve on this machine is expected to be refused.
+var c19NameProbes = []string{"localhost", "LocalHost", "c19-does-not-resolve.invalid"}
+
+// c19ResolveName is the harness's own resolution of a probe name (standard library, same resolver).
+func c19ResolveName(n string) net.IP {
+	a, err := net.ResolveIPAddr("ip", n)
+	if err != nil || a == nil || len(a.IP) == 0 {
+		return nil
+	}
+	return a.IP
+}
+
 type c19Obs struct {
 	Covert   []string // per probe IP: "R" refused, "a" allowed, "!" panic
+	Names    []string // per covert given by host name: the same
 	Phantom  []string
 	Domain   []string
 	Selector []string // per (seed, gen, family) probe: address, "err", "panic"
 }
 
 func (o c19Obs) policy() string {
-	return strings.Join(o.Covert, "") + "|" + strings.Join(o.Phantom, "") + "|" + strings.Join(o.Domain, "")
+	return strings.Join(o.Covert, "") + "|" + strings.Join(o.Phantom, "") + "|" + strings.Join(o.Domain, "") + "|" + strings.Join(o.Names, "")
 }
 func (o c19Obs) selector() string { return strings.Join(o.Selector, ",") }
 
@@ -170,6 +185,18 @@ func c19Observe(rm *RegistrationManager, ips []net.IP, hosts []string) c19Obs {
 			v = "!"
 		}
 		o.Phantom = append(o.Phantom, v)
+	}
+	for _, n := range c19NameProbes {
+		n := n
+		v := "a"
+		if p := c19Recover(func() {
+			if out, _ := rm.ParseOrResolveBlocklisted(net.JoinHostPort(n, "8443")); out == "" {
+				v = "R"
+			}
+		}); p != nil {
+			v = "!"
+		}
+		o.Names = append(o.Names, v)
 	}
 	for _, h := range hosts {
 		h := h
@@ -285,6 +312,29 @@ func c19PolicyMatches(x *c19Ctx, o c19Obs, pol *c19Policy, ips []net.IP, hosts [
 		}
 		if !wantP && gotP == "P" {
 			return "policy:refuses-unlisted", fmt.Sprintf("phantom %s is in no phantom_blocklist entry of the configuration in force but is refused", ip)
+		}
+	}
+	for i, n := range c19NameProbes {
+		addr := c19ResolveName(n)
+		want, det := pol.nameRefused(n, addr, x.local)
+		if !det || i >= len(o.Names) {
+			continue
+		}
+		got := o.Names[i]
+		if got == "!" {
+			return "panic:policy", fmt.Sprintf("ParseOrResolveBlocklisted(%s:8443) panicked", n)
+		}
+		if (want && got != "R") || (!want && got == "R") {
+			// is the literal of the same address judged as the model says? then only the name is stale
+			if addr != nil {
+				if lw, ldet := pol.covertRefused(addr, x.local); ldet && lw == want {
+					return "policy:name-judged-differently-from-its-address", fmt.Sprintf("covert %s:8443 resolves to %s; the policy in force says refused=%v for that address, but the name is answered refused=%v", n, addr, want, got == "R")
+				}
+			}
+			if want {
+				return "dropped:covert_blocklist_subnets", fmt.Sprintf("covert %s:8443 (resolves to %v) must be refused by the policy in force but is not", n, addr)
+			}
+			return "policy:refuses-unlisted", fmt.Sprintf("covert %s:8443 (resolves to %v) is in no list of the configuration in force but is refused", n, addr)
 		}
 	}
 	for i, h := range hosts {
@@ -504,6 +554,9 @@ func c19RunReload(x *c19Ctx, c c19ReloadCase, res *c19Result) {
 		res.harness = "start-up selector: " + why
 		return
 	}
+	if c19ResolveName(c19NameProbes[0]) != nil {
+		res.class("name-probe-resolves")
+	}
 	st.housekeeping("start-up", res.report)
 	st.useGeoIP("start-up", 0, res)
 	if res.harness != "" {
@@ -566,6 +619,11 @@ func c19RunReload(x *c19Ctx, c c19ReloadCase, res *c19Result) {
 			}
 		}
 		after := c19Observe(st.rm, ips, hosts)
+		for ni := range after.Names {
+			if ni < len(obs.Names) && obs.Names[ni] == "a" && after.Names[ni] == "R" {
+				res.class("name-accepted-then-refused-by-reload")
+			}
+		}
 
 		// ---- oracle
 		var npol *c19Policy
@@ -799,7 +857,7 @@ func TestVerif_C19_reload(t *testing.T) {
 	rec := vh.NewRec("C19", "reload", "rapid-generated sequences of 1-8 SIGHUP reloads after a start-up with a valid generated (or the shipped) configuration and subnet version: each step puts {a clean generated configuration, a dirty one (unparseable / stray-whitespace entries, bad regexps, wrong TOML types, syntax garbage), an empty file, nothing (file removed), a directory, the file left as it is} at the configuration path and {one of 4 pairwise disjoint subnet versions, a TOML syntax error, wrong types, a non-numeric generation key, nothing, a directory, unchanged} at the subnet path, then runs ParseConfig and, on success, OnReload as main.go does; clean configurations whose GeoIP database cannot be opened are a step kind of their own; after every step the GeoIP part is used (lookups, a registration through the real ingest path) and must be unchanged if it failed to load. Non-trivial = a reload in which a part failed to load after a reload in which every part loaded; distinct by sequence")
 	defer rec.Flush()
 	rec.Require("fail-after-success", "step:config-rejected", "step:config-accepted", "step:subnets-failed", "step:subnets-replaced",
-		"config-unreadable", "config-malformed", "subnets-unreadable", "subnets-malformed", "step:geoip-failed", "step:geoip-replaced", "geoip-used-by-registration")
+		"config-unreadable", "config-malformed", "subnets-unreadable", "subnets-malformed", "step:geoip-failed", "step:geoip-replaced", "geoip-used-by-registration", "name-probe-resolves", "name-accepted-then-refused-by-reload")
 	x := c19NewCtx(t)
 	if p := vh.ReplayFile(); p != "" {
 		var c c19ReloadCase
@@ -819,7 +877,7 @@ func TestVerif_C19_reload(t *testing.T) {
 func TestVerif_C19_reload2(t *testing.T) {
 	rec := vh.NewRec("C19", "reload2", "exhaustive: all sequences of 1 and 2 reloads over the alphabet {configuration: valid A, valid B (allowlist), unparseable CIDR entry, stray-whitespace entry, bad regexp, wrong TOML type, syntax error, empty file, removed, directory, valid policies + GeoIP database {missing, a directory, truncated}} x {subnets: version 1, version 2, syntax error, non-numeric generation key, removed, directory}, after a start-up with valid configuration A0 and subnet version 0; non-trivial = a failing reload after a successful one; distinct by sequence")
 	defer rec.Flush()
-	rec.Require("fail-after-success", "step:config-rejected", "step:config-accepted", "step:subnets-failed", "step:subnets-replaced", "step:geoip-failed", "step:geoip-replaced", "geoip-used-by-registration")
+	rec.Require("fail-after-success", "step:config-rejected", "step:config-accepted", "step:subnets-failed", "step:subnets-replaced", "step:geoip-failed", "step:geoip-replaced", "geoip-used-by-registration", "name-probe-resolves", "name-accepted-then-refused-by-reload")
 	x := c19NewCtx(t)
 	if p := vh.ReplayFile(); p != "" {
 		var c c19ReloadCase
@@ -849,7 +907,7 @@ func TestVerif_C19_reload2(t *testing.T) {
 		ml("phantom_blocklist", phantom)
 		return c
 	}
-	init := mk([]string{"10.0.0.0/8", "fc00::/7"}, nil, []string{"192.0.2.0/25"}, []string{"localhost"})
+	init := mk([]string{"10.0.0.0/8", "fc00::/7"}, nil, []string{"192.0.2.0/25"}, []string{`^metadata\.`})
 	init.Note = "A0"
 	confs := []c19Step{
 		{Conf: mk([]string{"192.168.0.0/16", "2001:db8:1::/48"}, nil, []string{"198.51.100.0/24"}, []string{`\.local$`})},
